@@ -39,6 +39,9 @@ pub struct Image {
     pub stack: u8,
     /// Some(n) = *PROGRAMSIZE n; None = AUTO (image length)
     pub limit: Option<u8>,
+    /// *PROGRAMSIZE NOSET: the previous limit stays in force (`limit` is ignored)
+    #[serde(default)]
+    pub keep_limit: bool,
 }
 
 impl Image {
@@ -46,17 +49,26 @@ impl Image {
         ByteCode {
             lines: vec![(Line::Empty(None), self.bytes.clone())],
             stacksize: stacksize_of(self.stack),
-            programsize: match self.limit {
-                Some(n) => Programsize::Size(n),
-                None => Programsize::Auto,
+            programsize: match (self.keep_limit, self.limit) {
+                (true, _) => Programsize::NotSet,
+                (false, Some(n)) => Programsize::Size(n),
+                (false, None) => Programsize::Auto,
             },
         }
     }
-    /// the PC limit in force after loading this image
+    /// the PC limit this image states (for NOSET: see `limit_after`)
     pub fn effective_limit(&self) -> u8 {
         match self.limit {
             Some(n) => n,
             None => self.bytes.len().min(255) as u8,
+        }
+    }
+    /// the PC limit in force after loading this image over a machine whose limit was `prev`
+    pub fn limit_after(&self, prev: Option<u8>) -> Option<u8> {
+        if self.keep_limit {
+            prev
+        } else {
+            Some(self.effective_limit())
         }
     }
 }
@@ -76,7 +88,7 @@ pub struct Setup {
 impl Setup {
     pub fn plain(bytes: Vec<u8>, stack: u8, limit: Option<u8>) -> Self {
         Setup {
-            image: Image { bytes, stack, limit },
+            image: Image { bytes, stack, limit, keep_limit: false },
             regs: None,
             pokes: vec![],
             inputs: [0; 4],
